@@ -38,10 +38,12 @@ impl Default for Setup {
 pub struct Sink {
     pub out: Box<dyn Write>,
     pub n: usize,
+    /// wide-range runs (values beyond TLC's 32-bit integers): log call kind and outcome only
+    pub reduced: bool,
 }
 impl Sink {
     pub fn new(out: Box<dyn Write>) -> Sink {
-        Sink { out, n: 0 }
+        Sink { out, n: 0, reduced: false }
     }
     pub fn push(&mut self, mut v: Value) -> usize {
         self.n += 1;
@@ -89,19 +91,19 @@ impl Run {
         let np = native_prefix(&setup);
         for n in ["admin", "admin2", "admin3", "mon1", "mon2", "mon3", "u1", "u2", "u3", "u4", "u5", "trader"] {
             let a = mk_addr("osmo", n, 20);
-            w.names.add(n, &a);
+            std::sync::Arc::make_mut(&mut w.names).add(n, &a);
         }
         for n in ["c1", "treasury", "treasury2", "oracle", "oracle2"] {
             let a = mk_addr("osmo", n, 32);
-            w.names.add(n, &a);
+            std::sync::Arc::make_mut(&mut w.names).add(n, &a);
         }
         for n in ["staker", "collector", "staker2", "collector2", "n:u1", "n:u2", "n:u3", "n:u4"] {
             let a = mk_addr(np, n, 20);
-            w.names.add(n, &a);
+            std::sync::Arc::make_mut(&mut w.names).add(n, &a);
         }
         for n in ["val1", "val2", "val3", "val4"] {
             let a = mk_addr(&format!("{np}valoper"), n, 20);
-            w.names.add(n, &a);
+            std::sync::Arc::make_mut(&mut w.names).add(n, &a);
         }
         Run { w, at: 0, setup, run_id, digest_kind: "staking".into() }
     }
@@ -156,6 +158,34 @@ impl Run {
     }
 
     pub fn log(&mut self, sink: &mut Sink, parent: usize, call: Value, out: &TxOut) -> usize {
+        if sink.reduced {
+            let inner = if call["m"] == "hook" { call["inner"].clone() } else { call["m"].clone() };
+            // the State and Config queries must answer too (never panic)
+            let mut qs = String::new();
+            if self.w.instantiated {
+                for q in [json!({"state": {}}), json!({"config": {}}), json!({"batches": {}}), json!({"pending_batch": {}}),
+                          json!({"ibc_queue": {}}), json!({"batch": {"id": 1}})] {
+                    if let Err(p) = self.w.query_raw(&q) {
+                        qs = format!("query {}: panic: {}", q, p);
+                        break;
+                    }
+                }
+            }
+            let xp = if self.setup.batch_period >= (1u64 << 33) || self.setup.unbonding >= (1u64 << 33) { " [cfg: period >= 2^33 s]" } else { "" };
+            if !qs.is_empty() {
+                qs.push_str(xp);
+            }
+            let mut out = out.clone();
+            if out.panic {
+                out.err.push_str(xp);
+            }
+            let out = &out;
+            let line = json!({"parent": parent, "call": {"m": inner, "s": call["s"].as_str().unwrap_or("")}, "callj": call.to_string(),
+                "res": {"ok": out.ok, "panic": out.panic, "err": out.err.chars().take(200).collect::<String>()},
+                "qpanic": qs});
+            self.at = sink.push(line);
+            return self.at;
+        }
         let line = json!({
             "build": if cfg!(feature = "miniwasm") { "miniwasm" } else { "osmosis" },
             "parent": parent,
@@ -314,11 +344,17 @@ impl Run {
                     "false" => json!(false),
                     _ => Value::Null,
                 };
-                let exp = ji(&call, "expected");
+                let exp = match call.get("expected") {
+                    Some(Value::String(s)) => json!(s),
+                    _ => {
+                        let e = ji(&call, "expected");
+                        if e >= 0 { json!(e.to_string()) } else { Value::Null }
+                    }
+                };
                 let msg = json!({"liquid_stake": {
                     "mint_to": mint_to_addr,
                     "transfer_to_native_chain": tn,
-                    "expected_mint_amount": if exp >= 0 { json!(exp.to_string()) } else { Value::Null },
+                    "expected_mint_amount": exp,
                 }});
                 let funds = self.funds_of(&call);
                 let o = self.w.tx_execute(&sender, &msg, &funds, &tenv);
